@@ -22,8 +22,11 @@ AllOps(mm) == Ops \cup {"reparse_" \o FmtName} \cup (IF mm = "enum" THEN {"std_t
 
 \* ---- classification cases
 Items == {"budget", "term", "punct", "stamp", "truth"}
+\* the stamp of a case varies with its junction term, so that every stamp kind takes part
+StampFor(t) == CASE t.k = "Word" -> [k |-> "Present"] [] t.k = "VariableIndependent" -> [k |-> "Future"] [] t.k = "VariableQuery" -> [k |-> "Past"]
+                 [] t.k = "Inheritance" -> [k |-> "Fixed", n |-> "5"] [] OTHER -> [k |-> "Present"]
 ItemToks(it, t) == CASE it = "budget" -> EndWith(BudgetToks(<<"0.5">>), "i") [] it = "term" -> EndWith(TermToks(t), "n")
-                     [] it = "punct" -> T(F.punct["Judgement"], "t") [] it = "stamp" -> EndWith(StampToks([k |-> "Present"]), "t")
+                     [] it = "punct" -> T(F.punct["Judgement"], "t") [] it = "stamp" -> EndWith(StampToks(StampFor(t)), "t")
                      [] it = "truth" -> TruthToks(<<"1", "0.9">>)
 Order5 == <<"budget", "term", "punct", "stamp", "truth">>
 SubsetText(S, t, spaced) == LET toks == Cat([i \in 1..5 |-> IF Order5[i] \in S THEN ItemToks(Order5[i], t) ELSE <<>>])
